@@ -175,7 +175,7 @@ def check_equivariance(desc):
             A1 = og.dense(og.boundary_operator(fam, op, d1, d1, t1, k1, parameters=par))
         want = (s ** _EXP[op]) * (Qt.T @ A0 @ Qd)
         # absolute floor: e.g. the magnetic-field operator of a flat screen is identically zero (rounding noise only)
-        floor = 1e-10 * (s * D) ** _EXP[op]
+        floor = 1e-4 * (s * D) ** _EXP[op]
         errs.append(float(np.max(np.abs(A1 - want))) / max(float(np.max(np.abs(A1))), float(np.max(np.abs(want))), floor))
     sig = f"{tk}/{fam}_{op}/{sdt['kind']}x{sdd['kind']}"
     if exact:
@@ -231,7 +231,7 @@ def check_orientation(desc):
             A0 = og.dense(og.boundary_operator(fam, op, d0, d0, t0, k, parameters=par))
             A1 = og.dense(og.boundary_operator(fam, op, d1, d1, t1, k, parameters=par))
         want = Qt.T @ A0 @ Qd
-        errs.append(float(np.max(np.abs(A1 - want))) / max(float(np.max(np.abs(A1))), float(np.max(np.abs(want))), 1e-10 * D ** _EXP[op]))
+        errs.append(float(np.max(np.abs(A1 - want))) / max(float(np.max(np.abs(A1))), float(np.max(np.abs(want))), 1e-4 * D ** _EXP[op]))
     sig = f"orientation/{fam}_{op}/{tk}x{dk}"
     if errs[-1] > 1e-7 and errs[-1] > 0.02 * errs[0]:
         _fail(sig, f"swapped_normals={S} vs physically reversed elements: ||A_rev - Q^T A_flag Q|| = {['%.1e' % e for e in errs]} on singular orders "
@@ -253,14 +253,22 @@ def shards(tier, seed=1):
 
     q = tier == "quick"
     out = []
-    ops = rot(_OPS, seed, 3) if q else _OPS
-    if q and not any(o[2] == "m" for o in ops):
-        ops = ops[:2] + [("maxwell", "E" if seed % 2 else "M", "m")]
+    if q:
+        # every assembler code path in every run (default_scalar with a rotating kernel/family, the three hypersingular assemblers,
+        # Maxwell E and M, the sparse identity (scalar and vector) and Laplace-Beltrami kernels); packed into few interpreters by the runner
+        scal = [o for o in _OPS if o[1] in ("V", "K", "Kp")]
+        ops = rot(scal, seed, 2) + [o for o in _OPS if o[1] not in ("V", "K", "Kp")]
+        # orientation: the normal-dependent code paths
+        oops = [rot([("laplace", "K", "s"), ("helmholtz", "K", "s"), ("laplace", "Kp", "s"), ("modified", "Kp", "s")], seed, 1)[0],
+                rot([("helmholtz", "W", "p"), ("modified", "W", "p"), ("laplace", "W", "p")], seed, 1)[0],
+                rot([("maxwell", "E", "m"), ("maxwell", "M", "m")], seed, 1)[0], ("sparse", "I", "m")]
+    else:
+        ops = _OPS
+        oops = _OPS
     for fam, op, grp in ops:
-        out.append({"check": "equivariance", "fam": fam, "op": op, "grp": grp, "examples": 10 if q else 60, "budget_s": 300 if q else 2400})
-    oops = rot([o for o in _OPS if o[0] != "sparse" or o[2] == "m"], seed + 1, 2) if q else _OPS
+        out.append({"check": "equivariance", "fam": fam, "op": op, "grp": grp, "examples": 12 if q else 60, "budget_s": 150 if q else 2400})
     for fam, op, grp in oops:
-        out.append({"check": "orientation", "fam": fam, "op": op, "grp": grp, "examples": 5 if q else 30, "budget_s": 300 if q else 2400})
+        out.append({"check": "orientation", "fam": fam, "op": op, "grp": grp, "examples": 8 if q else 30, "budget_s": 150 if q else 2400})
     return out
 
 
@@ -281,7 +289,12 @@ def strategy(spec):
             return draw(st.sampled_from([[0.5, 0], [2.0, 0]]))
         return draw(st.sampled_from([[1.0, 0], [2.5, 1.0], [0.3, -0.2], [3.0, 0]]))
 
-    def mesh(draw):
+    def mesh(draw, junctions=True):
+        if vec and junctions and draw(st.integers(0, 3)) == 0:
+            # two boxes sharing a face: junction edges with three neighbours; segment spaces on two of the three domains are manifold
+            m = draw(mg.mesh_descs("multitrace", max_elems=24, domains=False, max_edits=0, allow_refine=False, motion=False, relabel=False, cls="regular"))
+            m["amp"] = 0.0
+            return m
         if vec:
             closed = draw(st.booleans())
             m = draw(mg.mesh_descs("closed" if closed else "open", max_elems=24, domains=True, max_edits=2, allow_refine=False, motion=False,
@@ -315,7 +328,7 @@ def strategy(spec):
 
     @st.composite
     def o(draw):
-        m = mesh(draw)
+        m = mesh(draw, junctions=False)  # whole-grid edge spaces need a manifold grid
         if not m.get("domains") or m["domains"].get("mode") == "all0":
             m["domains"] = {"mode": "patch", "n": 2, "seed": draw(st.integers(0, 99)), "values": [0, 3, 7, 12]}
         return {"mesh": m, "swap": draw(st.lists(st.integers(0, 3), min_size=1, max_size=3)), "fam": fam, "op": op, "k": kdraw(draw),
